@@ -1,6 +1,7 @@
 import Swat4.Gen.Facts
 import Swat4.Model.UseCases.Discovery
 import Swat4.Lemmas.Prog
+import Swat4.Lemmas.OnePerServer
 /-!
 # C15 — Refresh and revival enqueue exactly the right probes
 
@@ -297,5 +298,138 @@ theorem facts_config_wiring :
     (Facts.configWiring.filter fun r => configRows.contains r) = configRows ∧
     (Facts.configWiring.filter fun r => configRows.any fun c => c.1 == r.1 && c.2.1 == r.2.1 && c.2.2.1 == r.2.2.1 && c.2.2.2.1 == r.2.2.2.1) = configRows := by
   decide
+
+end Swat4.C15
+
+/-! # Additions (review round 2): "exactly one probe per selected server", per address
+
+`refresh_exact` / `revive_exact` give the appended queue items as `sel.map …`; "exactly one per server" was implicit in
+the `map`.  Under `Keyed` (every registry row is stored under the key of its own address — the C09/C10 invariant `keyed`,
+so no address occurs in two rows) the statements below count, for **every** address `a`, the probes a cycle appended for
+`a`: exactly 1 if a selected server has that address, 0 otherwise ("… and nothing else"). -/
+namespace Swat4.C15
+open Swat4 Swat4.UC Std
+
+/-- the items a cycle appended to the queue: what stands after the old items -/
+def added (s r : AbsState) : List QItem := r.queue.drop s.queue.length
+
+theorem added_view {s r : AbsState} {L : List (Probe × Int × GoTime)} (h : r.queue.map view = s.queue.map view ++ L) :
+    (added s r).map view = L := by
+  unfold added
+  rw [List.map_drop, h]
+  have : s.queue.length = (s.queue.map view).length := by rw [List.length_map]
+  rw [this, List.drop_left]
+
+/-- counting the appended probes addressed to `a`, given the appended views as a `map` over the selection -/
+theorem added_count {s r : AbsState} {sel : List Server} {f : Server → Probe × Int × GoTime}
+    (hf : ∀ sv, (f sv).1.addr = sv.addr) (h : r.queue.map view = s.queue.map view ++ sel.map f)
+    (hnd : (sel.map (·.addr)).Nodup) (a : Addr) :
+    ((added s r).filter fun q => decide (q.probe.addr = a)).length = if a ∈ sel.map (·.addr) then 1 else 0 := by
+  have h1 : ((added s r).filter fun q => decide (q.probe.addr = a)).length =
+      (((added s r).map view).filter fun v => decide (v.1.addr = a)).length := by
+    rw [List.filter_map, List.length_map]; rfl
+  rw [h1, added_view h, List.filter_map, List.length_map]
+  have h2 : ((fun v : Probe × Int × GoTime => decide (v.1.addr = a)) ∘ f) = fun sv => decide (sv.addr = a) := by
+    funext sv; simp only [Function.comp, hf]
+  rw [h2]
+  exact filter_length_of_nodup (·.addr) sel hnd a
+
+/-- **`refresh_one_per_server`** (clause "a refresh cycle enqueues exactly one details probe … for every server whose query
+port is known and that is not already awaiting a details retry, and nothing else"): under `Keyed`, for every address `a`
+the number of probes the cycle appended that are addressed to `a` is exactly 1 if a selected server has address `a` and
+0 otherwise; and the appended items are as many as the selected servers. -/
+theorem refresh_one_per_server (s : AbsState) (hk : Keyed s) (now interval retries : Int) (a : Addr) :
+    let sel := s.filter { withStatus := Status.port, noStatus := Status.detailsRetry }
+    let r := (refresh retries (now + interval)).run s now
+    ((added s r.1).filter fun q => decide (q.probe.addr = a)).length = (if a ∈ sel.map (·.addr) then 1 else 0) ∧
+    (added s r.1).length = sel.length := by
+  intro sel r
+  have h := (refresh_exact s now interval retries).2.1
+  refine ⟨added_count (fun _ => rfl) h (filter_addr_nodup hk _) a, ?_⟩
+  have := congrArg List.length (added_view h)
+  simpa using this
+
+/-- **`revive_one_per_server`** (clause "a revival cycle enqueues exactly one port probe for every server last refreshed
+within [now-scope, now-interval) whose port is neither known nor being discovered", countdown ≤ interval as in
+`revive_exact`): under `Keyed`, for every address `a` exactly 1 appended probe is addressed to `a` if a selected server
+has that address, 0 otherwise; the appended items are as many as the selected servers. -/
+theorem revive_one_per_server (s : AbsState) (hk : Keyed s) (now interval scope countdown retries : Int) (draws : Nat → Int)
+    (hi : 0 < interval) (hc : countdown ≤ interval)
+    (hd : ∀ k, 0 ≤ draws k ∧ (0 < countdown → draws k < countdown)) (a : Addr) :
+    let sel := s.filter { activeAfter := some (now - scope), activeBefore := some (now - interval), noStatus := Status.port ||| Status.portRetry }
+    let r := (revive retries (now - scope) (now - interval) now (now + countdown) (now + interval) draws).run s now
+    ((added s r.1).filter fun q => decide (q.probe.addr = a)).length = (if a ∈ sel.map (·.addr) then 1 else 0) ∧
+    (added s r.1).length = sel.length := by
+  intro sel r
+  have h := (revive_exact s now interval scope countdown retries draws hi hc hd).2.1
+  refine ⟨added_count (fun _ => rfl) h (filter_addr_nodup hk _) a, ?_⟩
+  have := congrArg List.length (added_view h)
+  simpa using this
+
+/-- … and for any countdown (probes whose draw lands at or after the deadline are dropped, `revive_overlong`): at most
+one appended probe per address, and none for an address that is not selected -/
+theorem revive_at_most_one_per_server (s : AbsState) (hk : Keyed s) (now interval scope countdown retries : Int)
+    (draws : Nat → Int) (a : Addr) :
+    let sel := s.filter { activeAfter := some (now - scope), activeBefore := some (now - interval), noStatus := Status.port ||| Status.portRetry }
+    let r := (revive retries (now - scope) (now - interval) now (now + countdown) (now + interval) draws).run s now
+    ((added s r.1).filter fun q => decide (q.probe.addr = a)).length ≤ 1 ∧
+    (a ∉ sel.map (·.addr) → ((added s r.1).filter fun q => decide (q.probe.addr = a)).length = 0) := by
+  intro sel r
+  have h := (revive_overlong s now interval scope countdown retries draws).2.1
+  have hsub : ((sel.filter fun sv => decide (selectCountdown now (now + countdown) (draws sv.addr.key) < now + interval)).map
+      (·.addr)).Sublist (sel.map (·.addr)) := (List.filter_sublist).map _
+  have hc := added_count (fun _ => rfl) h (hsub.nodup (filter_addr_nodup hk _)) a
+  rw [hc]
+  refine ⟨by split <;> omega, fun hn => ?_⟩
+  rw [if_neg (fun hm => hn (hsub.subset hm))]
+
+/-- the one-row registry of the examples is `Keyed` -/
+theorem overlongState_keyed : Keyed overlongState := by
+  intro k row h
+  simp only [overlongState] at h
+  rw [ExtTreeMap.getElem?_insert] at h
+  split at h
+  · rename_i hk
+    simp only [Option.some.injEq] at h
+    subst h
+    simpa [compare_eq_iff_eq, Addr.key] using hk
+  · simp at h
+
+/-- non-vacuity: on that registry a revival (interval 10, countdown 5) appends exactly one probe for address `1:5` and
+none for `2:5` -/
+example :
+    let r := (revive 3 (100 - 200) (100 - 10) 100 (100 + 5) (100 + 10) fun _ => 2).run overlongState 100
+    ((added overlongState r.1).filter fun q => decide (q.probe.addr = ⟨1, 5⟩)).length = 1 ∧
+    ((added overlongState r.1).filter fun q => decide (q.probe.addr = ⟨2, 5⟩)).length = 0 := by
+  intro r
+  have h1 := (revive_one_per_server overlongState overlongState_keyed 100 10 200 5 3 (fun _ => 2) (by decide) (by decide)
+    (fun _ => ⟨by decide, fun _ => by decide⟩) ⟨1, 5⟩).1
+  have h2 := (revive_one_per_server overlongState overlongState_keyed 100 10 200 5 3 (fun _ => 2) (by decide) (by decide)
+    (fun _ => ⟨by decide, fun _ => by decide⟩) ⟨2, 5⟩).1
+  exact ⟨h1.trans (by decide), h2.trans (by decide)⟩
+
+/-- a registry with one server whose query port is known -/
+def refreshState : AbsState :=
+  { servers := (∅ : ExtTreeMap Nat SRow).insert 5 ⟨{ addr := ⟨0, 5⟩, queryPort := 6, status := Status.port, info := [], details := ⟨[], [], []⟩, refreshedAt := none, version := 1 }, 0⟩ }
+
+theorem refreshState_keyed : Keyed refreshState := by
+  intro k row h
+  simp only [refreshState] at h
+  rw [ExtTreeMap.getElem?_insert] at h
+  split at h
+  · rename_i hk
+    simp only [Option.some.injEq] at h
+    subst h
+    simpa [compare_eq_iff_eq, Addr.key] using hk
+  · simp at h
+
+/-- non-vacuity of `refresh_one_per_server`: one details probe for `0:5`, none for `0:6` -/
+example :
+    let r := (refresh 4 (100 + 10)).run refreshState 100
+    ((added refreshState r.1).filter fun q => decide (q.probe.addr = ⟨0, 5⟩)).length = 1 ∧
+    ((added refreshState r.1).filter fun q => decide (q.probe.addr = ⟨0, 6⟩)).length = 0 := by
+  intro r
+  exact ⟨(refresh_one_per_server refreshState refreshState_keyed 100 10 4 ⟨0, 5⟩).1.trans (by decide),
+    (refresh_one_per_server refreshState refreshState_keyed 100 10 4 ⟨0, 6⟩).1.trans (by decide)⟩
 
 end Swat4.C15
